@@ -253,6 +253,14 @@ func genImportCase(cx *CheckCtx, i int, cfg FileCfg, sane bool) *Case {
 	r := cx.R.Fork()
 	var pool *PathPool
 	switch {
+	case r.Chance(4):
+		// MANY imports (tables, sets and caches that switch strategy at a size)
+		n := pick(r, []int{8, 9, 16, 17, 33, 64, 65, 129})
+		if sane || r.Bool() {
+			pool = sanePool(r, n)
+		} else {
+			pool = collidingPool(r, n)
+		}
 	case r.Chance(25):
 		pool = collidingPool(r, 2+r.Intn(cx.N(8, 40)))
 	case sane:
